@@ -702,7 +702,7 @@ def run_verus(text, unit, rlimit=None, keep=None, extra=()):
             cmd += ["--rlimit", str(rlimit)]
         cmd += list(extra)
         t0 = time.time()
-        p = subprocess.run(cmd, cwd=tmp, capture_output=True, text=True, timeout=float(os.environ.get("VX_TIMEOUT", "1500")))
+        p = subprocess.run(cmd, cwd=tmp, capture_output=True, text=True, timeout=float(os.environ.get("VX_TIMEOUT", "900")))
         wall = time.time() - t0
         if keep:
             shutil.copy(f, keep)
